@@ -169,7 +169,10 @@ def run(ctx):
         for i in bad[:8]:
             ctx.broke(f"model/implementation correspondence (Model/IO.v) differs on text {strings[i]!r}: providers give {pres[i]}")
     # ---- (2) the entry points on documents x rule selections
-    base = ["[$5 a month][$5]\n\n[$5]: /u\n", "[$HOME]\n\n[$home]: /u\n", "# 100% {x} $y %s {0}\n\n![$i][$5]\n\n[$5]: /u '$t'\n", "a $ b %d {} \\$\n"] + list(gen.POOL) + ["# a\r\n\r\nb  \r\n", "a  \r\nb\r\n", "## T #\r\n\r\ntext\r\n", "a\rb\r", "# h\n\nþ ü 艨 text  \n", "# ü\r\n", "a\n\n\n\nb", "#  a", "\ta\r\n"]
+    base = ["[$5 a month][$5]\n\n[$5]: /u\n", "[$HOME]\n\n[$home]: /u\n", "# 100% {x} $y %s {0}\n\n![$i][$5]\n\n[$5]: /u '$t'\n", "a $ b %d {} \\$\n",
+            # the same characters in every kind of block a debug statement may quote: fenced and indented code, headings, quotes, lists, HTML
+            "```sh\n$ pip install x\n```\n", "```\ncost: $5 {x} %s\n```\n", "    $ indented {0}\n", "# $h %s\n\nSetext $ {x}\n===\n", "> $q\n> ```\n> $ in quote\n", "- $i\n  1. $j {}\n",
+            "<div>\n$ html %d\n</div>\n", "`$c` *$e* [$l](/$u '$t') <$a@b.c>\n"] + list(gen.POOL) + ["# a\r\n\r\nb  \r\n", "a  \r\nb\r\n", "## T #\r\n\r\ntext\r\n", "a\rb\r", "# h\n\nþ ü 艨 text  \n", "# ü\r\n", "a\n\n\n\nb", "#  a", "\ta\r\n"]
     corpus = gen.repo_corpus(core.REPO)
     docs = base + gen.sample(corpus, 100 if ctx.tier == "quick" else 1500, ctx.seed)
     docs += [d.replace("\n", "\r\n") for d in gen.sample(corpus, 60 if ctx.tier == "quick" else 600, ctx.seed + 1)]
